@@ -259,6 +259,12 @@ def _class_menu():
     m["FunctionG"] = (lambda d: (F.FunctionG(d), [[0.5]] * d, None, 1), "unit")
     m["FunctionGShifted"] = (lambda d: (F.FunctionGShifted(d), [[0.3, 0.8]] * d, None, 1), "unit")
     m["FunctionDiagonalDiscont"] = (lambda d: (F.FunctionDiagonalDiscont(), None, None, 1), "unit")
+    # parameters that are zero (falsy but legal)
+    m["ConstantValue_zero"] = (lambda d: (F.ConstantValue(0.0), [[]] * d, None, 1), "any")
+    m["FunctionLinear_zero_coeff"] = (lambda d: (F.FunctionLinear([1.5, 0.0, 0.75][:d]), [[]] * d, None, 1) if d >= 2 else None, "any")
+    m["GenzOszillatory_zero_offset"] = (lambda d: (F.GenzOszillatory([3.0, 1.0, 2.0][:d], 0.0), [[]] * d, None, 1), "any")
+    m["GenzProductPeak_midpoint_zero"] = (lambda d: (F.GenzProductPeak([2.0, 3.0, 1.5][:d], [0.0, 0.5, 0.6][:d]), [[[0.0, 0.5, 0.6][k]] for k in range(d)], None, 1), "any")
+    m["GenzGaussian_midpoint_zero"] = (lambda d: (F.GenzGaussian([0.0, 0.5, 0.6][:d], [3.0, 2.0, 1.0][:d]), [[[0.0, 0.5, 0.6][k]] for k in range(d)], None, 1), "any")
     m["FunctionUQ"] = (lambda d: (F.FunctionUQ(), [[], [0.0], []], None, 1) if d == 3 else None, "uq")
     m["FunctionUQShifted"] = (lambda d: (F.FunctionUQShifted(), [[], [-0.221413], []], None, 1) if d == 3 else None, "uq")
     m["FunctionUQ2"] = (lambda d: (F.FunctionUQ2(), [[], [0.0]], None, 1) if d == 2 else None, "uq")
